@@ -329,9 +329,10 @@ ob('C11.tree.offset', ['C11'], 'merge_ska_dict/tree', 'parallel_append_depth2_of
 
 
 # ------------------------------------------------------------------ C12.glue (add_file_kmers on reads)
-for (n, m, tier) in [(2, 2, 'quick')]:
+for (n, m, tier) in [(2, 2, 'thorough')]:
     ob('C12.glue.n%d.m%d' % (n, m), ['C12'], 'ska_dict/reads', 'reads_glue_n%d_m%d' % (n, m), tier=tier, functions=[SD + 'new', SD + 'add_file_kmers', SD + 'add_to_dict', BF + 'filter', BF + 'bloom_add_and_check'] + WINF + [SK + 'middle_base_qual', SK + 'valid_qual'] + NTF,
        inst='u64', needs_parts=['ska_dict/acc', 'split_kmer/common'], caps={'MCAP': 2, 'SCAP': 1, 'RCAP': 1, 'CCAP': 1}, models=['needletail (in-memory FASTQ records)', 'hashbrown'],
        stubs=['KmerFilter::init -> 4-word Bloom buffer (environment stub)', 'core::str::from_utf8 -> unchecked (kani::stub)'],
        sym='%d copies of one read of 6 symbolic bases, symbolic middle-base qualities per copy, strand mode; min-count %d, min-qual 20, middle rule; the two k-mers of the read assumed to fall into different Bloom blocks' % (n, m),
-       oracle='each split k-mer included exactly when seen min-count times with a passing middle base', bounds='k=5, one FASTQ file, %d reads of 6 bases' % n, timeout=5400, mem_gb=32, mem_expect_gb=14)
+       oracle='each split k-mer included exactly when seen min-count times with a passing middle base', bounds='k=5, one FASTQ file, %d reads of 6 bases' % n, timeout=7200, mem_gb=40, mem_expect_gb=20,
+       dead_witnesses=['second window reaches the count although its last sighting fails'] if n == 2 else [])
